@@ -185,8 +185,24 @@ func main() {
 				GoImport: ctx.GoPrefix + "/" + spec.Name, Syntax: spec.FD.GetSyntax(), APIv: v.APIv, PerMsg: v.PerMsg, Unsafe: v.Unsafe, Plain: v.Plain, FMParam: v.FMParam}
 			allMessages(spec.FD.GetPackage(), spec.FD.MessageType, "", &info.Messages)
 			var deps []*descriptorpb.FileDescriptorProto
-			if len(spec.FD.Dependency) > 0 {
-				deps = wktFiles()
+			for _, d := range spec.FD.Dependency {
+				if strings.HasPrefix(d, "google/protobuf/") {
+					deps = wktFiles()
+					break
+				}
+			}
+			for _, imp := range spec.Imports { // other corpus files of this variant: in the request, not in file_to_generate
+				found := false
+				for _, other := range specs {
+					if other.Name == imp {
+						deps = append(deps, other.FD)
+						found = true
+					}
+				}
+				if !found {
+					fmt.Fprintf(os.Stderr, "vgen: %s imports %s which is not part of the corpus of variant %s\n", spec.Name, imp, v.Name)
+					os.Exit(2)
+				}
 			}
 			deps = append(deps, spec.FD)
 			if err := validateFile(spec.FD, deps); err != nil {
@@ -206,10 +222,14 @@ func main() {
 	}
 
 	// pass 1: message types + first fast-marshal run
+	wave := 0 // 0 = every job; 1 = files without corpus imports; 2 = files that import other corpus files
 	runAll := func(fn func(j *job)) {
 		var wg sync.WaitGroup
 		sem := make(chan struct{}, *jobs)
 		for _, j := range jobsList {
+			if wave == 1 && len(j.spec.Imports) > 0 || wave == 2 && len(j.spec.Imports) == 0 {
+				continue
+			}
 			wg.Add(1)
 			sem <- struct{}{}
 			go func(j *job) {
@@ -318,7 +338,7 @@ func main() {
 		}
 		j.info.PlainBuildOK = true
 	})
-	runAll(func(j *job) {
+	withFM := func(j *job) {
 		if !j.info.PlainBuildOK {
 			return
 		}
@@ -342,7 +362,13 @@ func main() {
 			return
 		}
 		j.info.Usable = true
-	})
+	}
+	// an importer is compiled after the packages it imports have their final set of files
+	wave = 1
+	runAll(withFM)
+	wave = 2
+	runAll(withFM)
+	wave = 0
 
 	// manifest, descriptor set, blank imports
 	var infos []*FileInfo
